@@ -65,6 +65,26 @@ def r1(k: Kit) -> None:
                           'of registries drained on close (untriaged waiter)',
                           f.loc(c))
     rep.floor('C09.R1', 'create_future sites', n, 7)
+    # a waiter is registered only while its owner is alive: after _cleanup
+    # has drained the registry nobody would ever resolve it
+    for qual, field in (
+            ('connection.SSHConnection._make_global_request',
+             'self._transport'),
+            ('channel.SSHChannel._make_request', 'self._send_chan')):
+        f = k.func(qual)
+        gg = k.cfg(f)
+        for nd, c in k.calls_named(f, 'create_future'):
+            w = gg.guarded_by(nd.id, atom_truthy_of(field))
+            rep.check(w is None, 'C09.R1',
+                      key(f, f'waiter only while {field}'),
+                      f'the waiter is created only past the `{field}` '
+                      'liveness test',
+                      f'a waiter can be registered after `{field}` is gone '
+                      '(connection / channel already cleaned up): the '
+                      'registry was drained, so the request, and everything '
+                      'awaiting it (listener close tasks, '
+                      'forward_remote_port), hangs forever',
+                      k.loc(f, nd), gg.describe_path(w) if w else None)
     # SSHChannel._cleanup
     cc = k.func(CH + '_cleanup')
     g = k.cfg(cc)
@@ -527,6 +547,69 @@ def r4(k: Kit) -> None:
                   k.loc(pr, n))
 
 
+def r5(k: Kit) -> None:
+    """close() / abort() from every send state."""
+    rep = k.rep
+    idx = k.idx
+    rep.rule('C09.R5', 'SSHChannel.close and abort evaluated from each of '
+             'the five send states x two receive states (helper predicates '
+             'inlined): unless a CLOSE is already pending or sent, close() '
+             'moves to close_pending and flushes (which sends CLOSE once the '
+             'buffer is empty) and abort() sends CLOSE at once - also after '
+             'a local EOF; the receive side is discarded unless closed')
+    cls = idx.cls('channel.SSHChannel')
+    for name, want_call in (('close', 'self._flush_send_buf'),
+                            ('abort', 'self._close_send')):
+        fi = k.func(CH + name)
+        body = [st for st in fi.node.body if not (
+            isinstance(st, ast.Expr) and isinstance(st.value, ast.Constant))]
+        bad = None
+        n = 0
+        for ss in ('open', 'eof_pending', 'eof', 'close_pending', 'closed'):
+            for rs in ('open', 'closed'):
+                n += 1
+                val = {'self._send_state': ss, 'self._recv_state': rs}
+
+                def on_call(nm, args, env, val=val):
+                    if nm.startswith('self.') and nm.count('.') == 1 and \
+                            nm[5:] in cls.methods and nm[5:] in (
+                                'is_closing',):
+                        fn = cls.methods[nm[5:]]
+                        o2 = evaluate(idx, fn.module, fn.node.body,
+                                      dict(val), {},
+                                      lambda a, b, c: Obj('x'))
+                        return o2.value
+                    return Obj('x')
+                try:
+                    o = evaluate(idx, fi.module, body, val, {}, on_call)
+                except NotEvaluable as exc:
+                    rep.error('C09.R5', key(fi, 'not-evaluable'), str(exc))
+                    return
+                acted = bool(o.called(want_call))
+                should = ss not in ('close_pending', 'closed')
+                if acted != should:
+                    bad = bad or (
+                        f'{name}() with send state {ss!r}: '
+                        f'{want_call} {"not " if should else ""}called'
+                        + (' - no CHANNEL_CLOSE is ever sent, so the peer '
+                           'never answers with CLOSE and wait_closed() / '
+                           'run() hang' if should else
+                           ' - CLOSE would be sent twice'))
+                if name == 'close' and should and \
+                        ('self._send_state', 'close_pending') not in o.stores:
+                    bad = bad or (f'close() with send state {ss!r} does not '
+                                  'move to close_pending')
+                disc = bool(o.called('self._discard_recv'))
+                if disc != (rs != 'closed'):
+                    bad = bad or (f'{name}() with receive state {rs!r}: '
+                                  'discard of unreceived data '
+                                  f'{"missing" if rs != "closed" else "repeated"}')
+        rep.count('eval.close_states', n)
+        rep.check(bad is None, 'C09.R5', key(fi, 'close table'),
+                  f'{n} (send, receive) states: CLOSE initiated unless '
+                  'already pending or sent', str(bad), fi.loc(fi.node))
+
+
 def run(idx, rep, tier):
     k = Kit(idx, rep)
     rep.assumptions += NOT_DECIDED
@@ -534,3 +617,4 @@ def run(idx, rep, tier):
     r2(k)
     r3(k)
     r4(k)
+    r5(k)
